@@ -45,6 +45,10 @@ SPECIALS = [
     "start __\nstruct __(_1)\nenum _1 { __ _1($_2) }\nterminal _3 { $_2: crate::P }\n",
     "start S\nenum S { Error Ok2(S $A) }\nterminal T { $A: crate::P  $Error: () }\n",
     "start Eof\nstruct Eof { eof: $Eof2 }\nterminal Terminal { $Eof2: crate::P  $Terminal2: () }\n",
+    # wide fieldsets (two-digit field indices) with mixed field types, tuple and named, struct and variant
+    "start Row\nstruct Row($A Cell $B _: $A Cell $A $B Cell _: $B $A Cell $B $A)\nstruct Cell { a: $A _: $B }\nterminal T { $A: crate::P $B: () }\n",
+    "start Row\nenum Row { V(Cell $A $B $A $A Cell $B $B $A Cell $A $B) W { f0: $A f1: Cell f2: $B f3: $A f4: $A f5: $B f6: Cell f7: $A f8: $B f9: $A f10: Cell f11: $B } }\n"
+    "struct Cell($B)\nterminal T { $A: crate::P $B: () }\n",
 ]
 
 
@@ -74,7 +78,16 @@ def check(prop, tier, seed):
         extra = os.path.join(wd, "pairs.ndjson")
         seen = set()
         with open(extra, "w") as f:
-            while len(seen) < 300:
+            # the allocator's own fallback names: a user who has BOTH X and X2 (X a preferred internal name) - always included
+            for base in ("Eof", "Quasiterminal", "State", "Node", "ACTION_TABLE", "S"):
+                for r1, r2 in (("start", "en"), ("tenum", "tu"), ("t1", "un"), ("en", "t1"), ("un", "start"), ("v1", "en")):
+                    a = dict(BENIGN)
+                    a[r1], a[r2] = base, base + "2"
+                    key = json.dumps(a, sort_keys=True)
+                    if key not in seen:
+                        seen.add(key)
+                        f.write(json.dumps(a) + "\n")
+            while len(seen) < 330:
                 r1, r2 = rng.sample(ROLES, 2)
                 a = dict(BENIGN)
                 a[r1], a[r2] = rng.choice(TYPE_POOL), rng.choice(TYPE_POOL)
